@@ -290,6 +290,8 @@ def c_initialize_X_and_G(it, clo, b, site):
         raise PyExc(dom.make_exc("ValueError", ("x0 and checkpoint.x should be equal",)))
     rows = uf("rows", Vec, I)(run.heap[ck.f["hess_inv"].f["sk"].ref])
     run.assume(rows >= 0)
+    # class invariant of scipy's LbfgsInvHessProduct (its constructor raises ValueError otherwise): sk, yk same shape
+    run.assume(rows == uf("rows", Vec, I)(run.heap[ck.f["hess_inv"].f["yk"].ref]))
     if run.branch(rows == 0):
         return (run.alloc_deque([]), run.alloc_deque([]))
     if run.choose("restore:size_mismatch", 2) == 1:
